@@ -71,6 +71,15 @@ where
             rows.push(row);
         }
 
+        // A statement is all or nothing: look at every row before storing the first.
+        if rows.len() > 1 {
+            DmlExecutor::new(self.ctx.clone(), self.logger.clone()).validate_rows_for_insert(
+                self.table_id,
+                &self.columns,
+                &rows,
+            )?;
+        }
+
         for row in rows {
             self.stats.rows_scanned += 1;
 
